@@ -51,14 +51,24 @@ struct Encoding<T, EnableIfEnum<T>> : EncodingIO<T> {
   static constexpr Status<void> WritePayload(EncodingByte prefix,
                                              const T& value, Writer* writer) {
     return Encoding<IntegerType>::WritePayload(
-        prefix, reinterpret_cast<const IntegerType&>(value), writer);
+        prefix, static_cast<IntegerType>(value), writer);
   }
 
   template <typename Reader>
   static constexpr Status<void> ReadPayload(EncodingByte prefix, T* value,
                                             Reader* reader) {
-    return Encoding<IntegerType>::ReadPayload(
-        prefix, reinterpret_cast<IntegerType*>(value), reader);
+    // Read into an object of the underlying type and convert: accessing the enum
+    // through a pointer to its underlying type violates the aliasing rules and
+    // optimizing compilers may drop the store (the caller then sees the value
+    // the enum held before the read).
+    IntegerType integer_value = 0;
+    auto status =
+        Encoding<IntegerType>::ReadPayload(prefix, &integer_value, reader);
+    if (!status)
+      return status;
+
+    *value = static_cast<T>(integer_value);
+    return {};
   }
 
  private:
